@@ -71,6 +71,14 @@ CLAIMS.update({
    ref="DESIGN.md section 4 C20"),
 })
 
+CLAIMS.update({
+ "C02": dict(
+   technique="symbolic ledgers and gradient identities on cell.cpp's force routines (LF engine; |n| handled as an algebraic symbol with L^2 = n.n), hinge-side tag analysis, slot/receiver dataflow, compositional translation typing",
+   text="Decides for all operand values: tension/elasticity forces of a face sum to zero, have zero torque and equal (-(tension of that face's type)+elasticity factor)*dA/dx_k with the cached normal being the normalised cross product as computed by update_face_normal_and_area (opened); each node of a face receives normal*pressure_*area/3; get_angle_gradient's three gradients sum to zero, each node receives the slot of its own position from each call and the regularisation forces cancel; in the bending term every product combines normal, cotangent and area of the same face of the hinge and the four hinge nodes receive their own slots; every add_force argument of the routines is translation invariant (arguments of opaque geometric calls included).",
+   note="Zero net force / torque of the pressure and bending terms as a whole are global identities over a closed surface and are not decided; neither is agreement with dV/dx beyond the per-face form, nor rotation equivariance.",
+   ref="DESIGN.md section 4 C02"),
+})
+
 NA_DEFAULT = "checker not finished yet (see DESIGN.md section 4 for the planned clauses)"
 NA = {}
 
